@@ -613,6 +613,7 @@ fn run_world_inner(w: &World) -> Obs {
                         None
                     };
                     crate::sched::begin(2, Prng::new(s5.sched_seed), s5.schedule.clone());
+                    let clock_seed = s5.sched_seed;
                     let mk = |circ: Circuit, tid: usize, p: std::path::PathBuf| {
                         std::thread::Builder::new()
                             .stack_size(64 << 20)
@@ -625,7 +626,11 @@ fn run_world_inner(w: &World) -> Obs {
                                 }
                                 crate::sched::enter(tid);
                                 let _g = Leave;
-                                guarded(|| circ.format_as_bristol(&p).is_ok())
+                                // both exporters live in the same simulated millisecond
+                                seams::enter_party_clock(1_700_000_000_000_000_000 + (clock_seed % 1_000_000_000), 1_000);
+                                let r = guarded(|| circ.format_as_bristol(&p).is_ok());
+                                seams::leave_party_clock();
+                                r
                             })
                             .unwrap()
                     };
